@@ -6,7 +6,7 @@ Mirror of `src/context/diff_flags.rs` (`DiffFlagDefs`: `define_flag`, `define_fl
 `parse_diff_string`, `mask_to_diff_label`, `difficulty_bits`, `aux_bits`), of
 `src/diff_switch_utils.rs` (`select_diff_switch_case`, `explicit_difficulty_cases`,
 `DiffSwitchMeta::{update, explicit_case_bitmasks}`), of `elaborate_diff_switches` /
-`select_diff_for_lower_arg` (`src/llir/lower.rs`), of the mask arithmetic of
+`update_diff_switch_meta` / `select_diff_for_lower_arg` (`src/llir/lower.rs`), of the mask arithmetic of
 `lower_assign_diff_switch` (`src/llir/lower/stackless.rs`) and of `SwitchLenChecker`
 (`src/passes/validate_difficulty.rs`).  Masks are the 8-bit difficulty byte (`BitSet32` holding
 `NUM_BITS = 8` bits).
@@ -57,6 +57,13 @@ def defaultDefs : Defs :=
 def rangeErr : String := "difficulty flag index out of range"
 def invalidDefErr : String := "invalid difficulty flag definition"
 
+def dupNameErr : String := "difficulty flag name"
+
+/-- `self.by_flag.iter().find(|&(&i, &c)| c == name && i != index)`: the name already names
+another flag (keys of `by_flag` are always below `NUM_BITS`) -/
+def namesOtherFlag (d : Defs) (name : Char) (index : Nat) : Bool :=
+  (List.range 8).any fun i => i != index && d.byFlag i == some name
+
 /-- `define_flag_from_mapfile`: `index` and the two-character definition string -/
 def defineFromMapfile (d : Defs) (index : Int) (str : List Char) : Outcome Defs :=
   if ¬ (0 ≤ index ∧ index < 8) then .err rangeErr
@@ -65,9 +72,10 @@ def defineFromMapfile (d : Defs) (index : Int) (str : List Char) : Outcome Defs 
     | [name, sign] =>
       if ¬ (name.val < 128 ∧ sign.val < 128) then .err invalidDefErr
       else if ¬ isFlagChar name then .err invalidDefErr
-      else if sign = '-' then defineFlag d name index.toNat false
-      else if sign = '+' then defineFlag d name index.toNat true
-      else .err invalidDefErr
+      else if ¬ (sign = '-' ∨ sign = '+') then .err invalidDefErr
+      -- a name may only stand for one flag
+      else if namesOtherFlag d name index.toNat then .err dupNameErr
+      else defineFlag d name index.toNat (sign = '+')
     | _ => .err invalidDefErr
 
 /-- all `!difficulty_flags` lines of the mapfiles, in order, on top of the default table -/
@@ -226,9 +234,21 @@ def ranges : List Nat → List (Nat × Nat)
 /-- `explicit_case_bitmasks`, as (first difficulty, one past the last) pairs -/
 def Meta.caseRanges (m : Meta) : List (Nat × Nat) := ranges (bitsOf m.explicit ++ [m.num])
 
-/-- top-level switches only: what `elaborate_diff_switches` feeds to `switch_props.update` -/
-def metaOf (args : List Arg) : Meta :=
-  args.foldl (fun m a => match a with | .sw cases => m.update cases | .val _ => m) { num := 0, explicit := 0#8 }
+mutual
+/-- `update_diff_switch_meta`: a switch contributes its own explicit cases and, recursively, those
+of every switch nested in one of its cases -/
+def metaArg (m : Meta) : Arg → Meta
+  | .val _ => m
+  | .sw cases => metaCases (m.update cases) cases
+/-- `for case in cases.iter().flatten() { update_diff_switch_meta(meta, case) }` -/
+def metaCases (m : Meta) : List (Option Arg) → Meta
+  | [] => m
+  | none :: rest => metaCases m rest
+  | some a :: rest => metaCases (metaArg m a) rest
+end
+
+/-- what `elaborate_diff_switches` collects over all arguments of the instruction -/
+def metaOf (args : List Arg) : Meta := args.foldl metaArg { num := 0, explicit := 0#8 }
 
 /-- one emitted instruction: difficulty byte and argument values -/
 structure Copy where
